@@ -193,6 +193,20 @@ Proof.
   rewrite IH. destruct o; simpl; lia.
 Qed.
 
+(* _sum covers every sample ever added, whatever the timestamps and whatever has left the window *)
+Definition add_values (ops : list (rop O)) : list Fl :=
+  flat_map (fun o => match o with RAdd _ _ v => [v] | _ => [] end) ops.
+Theorem sum_covers_all ops : forall r, r_sum O (rfinal r ops) = fold_left (fadd O) (add_values ops) (r_sum O r).
+Proof.
+  induction ops as [|o ops IH]; intros r; [reflexivity|].
+  unfold rfinal in *. cbn [fold_left]. rewrite IH. destruct o; reflexivity.
+Qed.
+
+(* what a snapshot operation reports: the lifetime count and sum, unchanged state *)
+Theorem snapshot_reports_lifetime (r : rsum O) t :
+  exists sc mn mx qs, rstep O r (RSnap O t) = (r, OSnap O (r_count O r) (r_sum O r) sc mn mx qs).
+Proof. simpl. eauto. Qed.
+
 (* snapshot(now) merges exactly the buckets that began after now - n*dur *)
 Theorem snapshot_merges_unexpired (r : rsum O) now v :
   In v (rs_snapshot O r now) <->
